@@ -8,6 +8,21 @@
 
 using namespace c11;
 
+// environment deviation: the next array allocation fails.  Only operator new[] is replaced (the array wrappers
+// allocate their buffers with new T[n]); both it and its delete go to malloc/free, so the pairing stays consistent.
+static int g_fail_array_new = 0;
+void *operator new[](size_t n)
+{
+  if (g_fail_array_new > 0 && --g_fail_array_new == 0)
+    throw std::bad_alloc();
+  void *p = malloc(n ? n : 1);
+  if (!p)
+    throw std::bad_alloc();
+  return p;
+}
+void operator delete[](void *p) noexcept { free(p); }
+void operator delete[](void *p, size_t) noexcept { free(p); }
+
 enum Code
 {
   S_SET,
@@ -22,6 +37,7 @@ enum Code
   F_ARR,
   F_ASSIGN_VEC,
   F_ASSIGN_ARR,
+  F_ASSIGN_VEC_NOMEM,  // *P = S with the array allocation inside the call failing (std::bad_alloc): the array stays alive and valid
   F_COPY_CTOR,
   F_COPY_ASSIGN,
   F_SELF_ASSIGN,     // *P = *P
@@ -73,6 +89,7 @@ static std::vector<Op> make_ops()
   add(F_ASSIGN_VEC, 0, 0, 0, "*P0 = S0", "operator=(vector&)");
   add(F_ASSIGN_VEC, 0, 1, 0, "*P0 = S1", "operator=(vector&)");
   add(F_ASSIGN_ARR, 0, 0, 0, "*P0 = arr", "operator=(array&)");
+  add(F_ASSIGN_VEC_NOMEM, 0, 1, 0, "*P0 = S1 [operator new[] fails]", "operator=(vector&) with a failing allocation");
   add(F_COPY_CTOR, 0, 1, 0, "P0 = make_shared<FixedArray>(*P1)", "copy constructor");
   add(F_COPY_ASSIGN, 0, 1, 0, "*P0 = *P1", "copy assignment");
   add(F_SELF_ASSIGN, 0, 0, 0, "*P0 = *P0", "copy assignment");
@@ -302,6 +319,23 @@ struct World
       *P[s] = *S.v[op.a];
       reassign(*MP[s], S.mv[op.a]);
       return true;
+    case F_ASSIGN_VEC_NOMEM: {
+      if (!MP[s] || !S.alive[op.a])
+        return false;
+      bool threw = false;
+      g_fail_array_new = 1;
+      try {
+        *P[s] = *S.v[op.a];
+      } catch (const std::bad_alloc &) {
+        threw = true;
+      }
+      const bool consumed = g_fail_array_new == 0;
+      g_fail_array_new = 0;
+      if (!consumed || !threw)  // the call did not allocate an array (or swallowed the failure): it was an ordinary assignment
+        reassign(*MP[s], S.mv[op.a]);
+      // otherwise nothing was assigned: the array is as before (what the check compares it with)
+      return true;
+    }
     case F_ASSIGN_ARR:
       if (!MP[s])
         return false;
